@@ -991,6 +991,11 @@ pub fn fam_byname(_cfg: &FunCfg, sink: &mut FunSink) {
         "range(n).case[i64] { Nil => (println_i64(103); new { ap(x) => x }), Cons(h, t) => (println_i64(104); new { ap(x) => x * h }) }",
         "label k { println_i64(105); if n == 2 { goto k (new { ap(x) => 0 - x }) } else { new { ap(x) => x + 1 } } }",
         "(println_i64(106); mkf(n))",
+        // terms that never return, at codata type: by name they only act when (and if) they are forced
+        "exit 3",
+        "if n > 1 { exit 4 } else { new { ap(x) => x - n } }",
+        "goto kk (9)",
+        "(println_i64(107); exit 5)",
     ];
     for (ci, carrier) in carriers.iter().enumerate() {
         for binding in ["let", "arg", "recv", "field"] {
@@ -1016,6 +1021,7 @@ pub fn fam_byname(_cfg: &FunCfg, sink: &mut FunSink) {
                         // ... or a constructor argument
                         format!("let l: List[Fun[i64, i64]] = Cons({carrier}, Nil); println_i64(7); println_i64(l.case[Fun[i64, i64]] {{ Nil => 0, Cons(g, t) => g.ap[i64, i64](1) }}); 3")
                     };
+                    let body = if carrier.contains("goto kk") { format!("label kk {{ {body} }}") } else { body };
                     let src = format!(
                         "{PRELUDE_TYPES}{PRELUDE_DEFS}def mkf(d: i64): Fun[i64, i64] {{ new {{ ap(x) => x * d }} }}\ndef user(m: i64, g: Fun[i64, i64]): i64 {{ println_i64(8); {} }}\ndef main(n: i64): i64 {{ {body} }}\n",
                         use_expr("g")
